@@ -87,7 +87,11 @@ class Ctx:
 
     def eq(self, st, what, a, b):
         a, b = as_poly(a), as_poly(b)
-        self.ob("ENS", what, f"{show_poly(a)} == {show_poly(b)}", st.eq(a, b), st, actual=a)
+        ok = st.eq(a, b)
+        if not ok:
+            a2, b2 = normalise_poly(st, a), normalise_poly(st, b)
+            ok = st.eq(a2, b2)
+        self.ob("ENS", what, f"{show_poly(a)} == {show_poly(b)}", ok, st, actual=a)
 
     def acc(self, st, what, conds):
         """ACC: on a success outcome the documented acceptance condition is entailed."""
@@ -1469,10 +1473,11 @@ def eval_guard(c, a, st, v):
     m = Poly.atom(("max", X))
     if is_fail(v):
         c.ob("REJ", "eval refuses only when some operation is unvisited", "None ⇒ max(unvisited) >= 1",
-             st.ge(m, 1), st)
+             st.ge(m, 1) or st.ge(t_len(X) - Poly.atom(("nzero", X)), 1), st)
     else:
+        nz = Poly.atom(("nzero", X))
         c.ob("ACC", "eval evaluates only when every operation was visited", "Some ⇒ unvisited is all zero",
-             st.eq(m, 0) or st.eq(t_len(X), 0), st)
+             st.eq(m, 0) or st.eq(t_len(X), 0) or st.eq(nz, t_len(X)), st)
 
 
 # ------------------------------------------------------------------ morphisms (C18 ERRMAP)
@@ -1711,6 +1716,7 @@ def bool_iff(c, st, v, expected, what):
     if f is None:
         c.ob("ENS", what, "boolean result expected", False, st)
         return
+    f, expected = _norm_formula(st, f), _norm_formula(st, expected)
     bad1 = c.I.assume(st.copy(), f_and(f, f_not(expected)))
     bad2 = c.I.assume(st.copy(), f_and(f_not(f), expected))
     ok = not bad1 and not bad2
@@ -1719,6 +1725,14 @@ def bool_iff(c, st, v, expected, what):
     opaque_bool = _has_unk(f) or any(not _known_unk(k) for (k, _) in st.unk)
     c.ob("ENS", what, f"result ⇔ {show_formula(expected)} (got {show_formula(f)})", ok, st,
          actual=("v", "top:uninterpreted boolean") if opaque_bool else None)
+
+
+def _norm_formula(st, f):
+    if isinstance(f, tuple):
+        return tuple(_norm_formula(st, x) for x in f)
+    if isinstance(f, Poly):
+        return normalise_poly(st, f)
+    return f
 
 
 def _has_unk(f):
